@@ -15,6 +15,18 @@
 //   tick [outcome*]                 run() without readiness (two clients: events collected earlier may still be cached)
 //   [A.|B.]suspend | resume | read <max> | remove | peerwrite <hex> | peerread | peerclose
 //   react [A.|B.]<onRead|onWrite|onClosed> <op...>   queue an operation for the next such callback
+//
+// Observation line:  <op> r= n= cb= tx= sends= data= [dead] | sb= susp= | k= | t=
+//   sections 1-3 are what the extracted model predicts call by call (compared for correspondence);
+//   section 4 is the ordered event trace of the operation the property monitor (coq/ServerWrite/
+//   ServerWriteMonitor.v, `driver monitor`) judges - together with r=, n=, data=, sb= of the line.  Tokens, in real-time order:
+//     ~                    first token of an operation executed from inside a callback (`react`)
+//     W<i>:<hex>           Client::write called with these bytes (client i: 0 = A, 1 = B)
+//     O<i>                 the library polled (epoll_wait) and the kernel finds the socket of client i writable
+//                          (scripted EPOLLOUT; real socket pair: always) - whether or not the library asked for that
+//     S<i>:<req>:<ret>:<t|w|f>[u]   one send call (serverwrite_kernel.h)
+//     C<i>:<callback>      callback delivered
+//     ^                    the reaction queued for that callback ran here (its line is printed before this one)
 #include "vh.hpp"
 #include <errno.h>
 #include <sys/socket.h>
@@ -39,9 +51,10 @@ static void s_hex(Str& s, const unsigned char* b, size_t n)
 }
 
 // what one operation shows
-struct Ctx { Str cbs, tx[2], sends, data; const char* ret; long num; int hasnum; bool dead; };
+struct Ctx { Str cbs, tx[2], sends, data, trace; const char* ret; long num; int hasnum; bool dead; };
 static void ctx_init(Ctx& c) { memset(&c, 0, sizeof(c)); c.ret = "-"; }
-static void ctx_free(Ctx& c) { free(c.cbs.p); free(c.tx[0].p); free(c.tx[1].p); free(c.sends.p); free(c.data.p); }
+static void ctx_free(Ctx& c) { free(c.cbs.p); free(c.tx[0].p); free(c.tx[1].p); free(c.sends.p); free(c.data.p); free(c.trace.p); }
+static void t_add(Ctx& c, const char* tok) { if(c.trace.n) s_add(c.trace, ","); s_add(c.trace, tok); }
 
 static int nclients = 1;        // 2 in a `two` case
 static Server* server = 0;
@@ -60,6 +73,8 @@ static void collect(Ctx& c)
   }
   const char* l = sk_take_sendlog();
   if(l[0]) { if(c.sends.n) s_add(c.sends, ","); s_add(c.sends, l); }
+  const char* t = sk_take_trace();
+  if(t[0]) t_add(c, t);
 }
 
 #define NREACT 64
@@ -72,14 +87,17 @@ static void exec_line(char* line, bool nested);
 static void on_callback(int idx, int which)
 {
   if(cur) {
+    collect(*cur);                      // what the operation caused so far comes before the callback
     if(cur->cbs.n) s_add(cur->cbs, ",");
     if(nclients == 2) s_add(cur->cbs, idx ? "B." : "A.");
     s_add(cur->cbs, cbname[which]);
+    char tok[32]; snprintf(tok, sizeof(tok), "C%d:%s", idx, cbname[which]);
+    t_add(*cur, tok);
   }
   if(reacth[idx][which] < reactt[idx][which]) {
     char* line = reactq[idx][which][reacth[idx][which]++].line;
     Ctx* outer = cur;
-    if(outer) collect(*outer);          // what the outer operation caused so far stays with it
+    if(outer) t_add(*outer, "^");
     sk_outcomes saved; sk_get_outcomes(&saved);   // the reaction has its own scripted send outcome;
     exec_line(line, true);
     sk_put_outcomes(&saved);            // the outer operation keeps its (possibly unconsumed) ones
@@ -129,7 +147,7 @@ static void print_line(const char* name, Ctx& c)
     if(i) printf("/");
     if(dead[i]) printf("-"); else print_mask(i);
   }
-  printf("\n");
+  printf(" | t=%s\n", c.trace.n ? c.trace.p : "-");
   fflush(stdout);
 }
 
@@ -171,6 +189,7 @@ static void exec_line(char* line, bool nested)
   if(idx >= nclients) { fprintf(stderr, "no client B in this case\n"); abort(); }
   Ctx c; ctx_init(c);
   cur = &c;
+  if(nested) t_add(c, "~");
   bool is_run = !strcmp(opn, "ev") || !strcmp(opn, "evs") || !strcmp(opn, "poll") || !strcmp(opn, "tick");
   if(!strcmp(opn, "react")) {
     const char* cbn = t.v[1]; int ci = 0;
@@ -190,6 +209,7 @@ static void exec_line(char* line, bool nested)
   } else if(!strcmp(opn, "write") || !strcmp(opn, "write0")) {
     size_t n; unsigned char* d = vh::unhex(t.v[1], n);
     set_outcome(t.v[2]);
+    { if(c.trace.n) s_add(c.trace, ","); s_add(c.trace, idx ? "W1:" : "W0:"); if(n) s_hex(c.trace, d, n); else s_add(c.trace, "-"); }
     bool r;
     if(!strcmp(opn, "write")) {
       usize postponed = 12345;
